@@ -347,6 +347,8 @@ class Gen(object):
             if self.funs and not infun:
                 kinds += ['alias']
         k = r.choice(kinds)
+        if getattr(self, 'force', None):
+            k = self.force.pop(0)
         env = dict(env)
         vars_ = INNER_VARS if infun else VARS
         if k == 'assign':
@@ -669,6 +671,11 @@ class Gen(object):
             self.emit(1, '%s = %s' % (v, e))
             env[v] = t
             self.defined_outer.add(v)
+        if self.o.nested and self.r.random() < 0.8:
+            # a local function, called right away and again later, in most programs of the nested streams
+            self.force = ['def', 'lcall']
+            env = self.stmt(1, env, 0, False)
+            env = self.stmt(1, env, 0, False)
         env = self.block(1, env, 0, False, minlen=2)
         rets = [n for n, s in sorted(env.items()) if s and n in VARS + PARAMS]
         self.emit(1, 'return (%s,)' % ', '.join(self.r.sample(rets, min(len(rets), 3))))
